@@ -224,6 +224,15 @@ func RunConfig(cfg *generate.Config) *Outcome {
 	}
 }
 
+func SortedKeysB(m map[string]bool) []string {
+	ks := make([]string, 0, len(m))
+	for k := range m {
+		ks = append(ks, k)
+	}
+	sort.Strings(ks)
+	return ks
+}
+
 func SortedKeys(m map[string]int) []string {
 	ks := make([]string, 0, len(m))
 	for k := range m {
